@@ -175,8 +175,17 @@ where
         Model::ScalarType: Scalar + ComplexField + RealField + Float + FromPrimitive,
     {
         #[allow(deprecated)]
-        let (problem, report) = self.solver.minimize(problem);
-        let result = FitResult::new(problem.into_sequential(), report);
+        let (problem, mut report) = self.solver.minimize(problem);
+        let problem = problem.into_sequential();
+        // the optimizer re-applies the last accepted parameters when it terminates after a
+        // rejected step, but it cannot observe a model failure in that final call. A fit
+        // whose final state has no residuals must not be reported as successful.
+        if report.termination.was_successful() && problem.cached.is_none() {
+            report.termination = levenberg_marquardt::TerminationReason::User(
+                "model failed when the final parameters were applied",
+            );
+        }
+        let result = FitResult::new(problem, report);
         if result.was_successful() {
             Ok(result)
         } else {
